@@ -11,10 +11,12 @@ from vf.models import ctxmodel as M
 from yaql.language import contexts, conventions, specs
 
 RULE = ('histories of up to 30 (thorough 60) operations over forests of at '
-        'most 12 contexts: new root, child, multi over 1-3 contexts, linked, '
+        'most 12 contexts: new root, child, multi over 1-3 contexts, linked '
+        '(with and without a parent of its own), '
         'set, delete, register (exclusive or not), delete_function; after '
         'every step every context x 8 variable spellings x 3 function '
-        'spellings is compared with the model; non-trivial = the history '
+        'spellings is compared with the model (chain lookup, own-layer read '
+        'with a default, membership, keys, function sets); non-trivial = the history '
         'built a composite context whose chain has >=2 layers and wrote '
         'after it; distinct = distinct (forest shape, operation kinds)')
 ASSUMPTIONS = [
@@ -78,6 +80,11 @@ class Exec:
             j = op[2] % n
             self._add(contexts.LinkedContext(r, self.real[j]),
                       M.MLinked(m, self.model[j]))
+            if M.depth(self.model[-1]) >= 2:
+                self.composite_deep = True
+        elif k == 'linked0':
+            # a linked context that has no parent of its own
+            self._add(contexts.LinkedContext(None, r), M.MLinked(None, m))
             if M.depth(self.model[-1]) >= 2:
                 self.composite_deep = True
         elif k == 'set':
@@ -153,6 +160,24 @@ class Exec:
                 if got != exp:
                     return ('variable-lookup', 'ctx#%d %s[%r] = %r, model %r'
                             % (i, sh, name, got, exp), None)
+                # a read of this layer alone with the caller's default
+                try:
+                    own = r.get_data(name, default='<dflt>',
+                                     ask_parent=False)
+                except Exception as e:   # noqa
+                    return ('read-raises', 'ctx#%d %s.get_data(%r, default, '
+                            'ask_parent=False) raised %s: %s' % (
+                                i, sh, name, type(e).__name__, e), e)
+                want = m.own_get(name)
+                if want is M.MISSING:
+                    want = '<dflt>'
+                if own != want or repr(own) == '<NoValue>':
+                    return ('variable-lookup', 'ctx#%d %s.get_data(%r, '
+                            'default, ask_parent=False) = %r, model %r' % (
+                                i, sh, name, own, want), None)
+                if repr(got) == '<NoValue>':
+                    return ('variable-lookup', 'ctx#%d %s[%r] is the '
+                            'internal no-value marker' % (i, sh, name), None)
                 if inn != m.own_contains(name):
                     return ('membership', 'ctx#%d %r in %s = %r, model %r' % (
                         i, name, sh, inn, m.own_contains(name)), None)
@@ -280,6 +305,11 @@ def make_machine(run):
         @rule(p=idx, l=idx)
         def linked(self, p, l):
             self.do(['linked', p, l])
+
+        @precondition(lambda self: 0 < self.n() < MAX_CTX)
+        @rule(l=idx)
+        def linked_without_parent(self, l):
+            self.do(['linked0', l])
 
         @precondition(lambda self: self.n() > 0)
         @rule(i=idx, name=st.sampled_from(VAR_NAMES), v=values)
